@@ -1,23 +1,87 @@
 (* C01 — a step applied to a valid document yields a valid document or is refused.
    The replace family (ReplaceStep, ReplaceAroundStep, AddMarkStep, RemoveMarkStep and the node-level
    steps) all go through Node.replace (Model.Step.from_replace -> Model.Tree.node_replace).  The
-   theorem below is about that function: whatever it returns is valid, for every document, range and
-   slice, provided the sides of the slice consist of valid nodes.  The step-level statement for the other
-   clauses of C01 (refusal instead of exception, closed wrappers of replace-around steps) is evaluated
-   per case by Corr.C01 on the implementation's observations. *)
-From Coq Require Import List.
-From PM Require Import Model.Data Model.Mark Model.Tree Proofs.ReplaceValid.
+   theorems below are about that function and about ReplaceStep.apply: whatever they return is valid,
+   for every document, range and slice whose open sides are made of non-leaf nodes with canonical marks
+   and whose other nodes are valid ([OpenOK]; a closed slice must simply consist of valid nodes).
+   The remaining clauses of C01 (refusal instead of an exception; the slices the other step types build)
+   are evaluated per case by Corr.C01 on the implementation's observations. *)
+From Coq Require Import List NArith String.
+From PM Require Import Model.Data Model.Mark Model.Tree Model.Step Proofs.ReplaceValid Proofs.SliceSides.
 Import ListNotations.
 
 (* [check] is the model of Node.check; C07_check_iff (Properties/C07.v) relates it to the token-level
    definition of validity. *)
-Theorem C01_node_replace_valid_partial : forall s doc from to sl d',
+Theorem C01_node_replace_valid : forall s doc from to sl d',
   check s doc = true ->
+  OpenOK s (sl_content sl) (sl_open_start sl) (sl_open_end sl) ->
   node_replace s doc from to sl = Ok d' ->
-  (sl_open_start sl = 0 -> sl_open_end sl = 0 -> forall x, In x (sl_content sl) -> check s x = true) ->
-  (forall rf rt st en, resolve s doc from = Ok rf -> resolve s doc to = Ok rt -> prepare_slice s sl rf = Ok (st, en) ->
-     LastOK s st /\ LastOK s en /\ PathMC s en /\
-     forall d, d <= rp_depth rf - sl_open_start sl -> Sides s rf rt st en d) ->
   check s d' = true.
-Proof. exact node_replace_valid. Qed.
-Print Assumptions C01_node_replace_valid_partial.
+Proof. exact node_replace_valid_open. Qed.
+Print Assumptions C01_node_replace_valid.
+
+(* a closed slice: every node valid, nothing else asked *)
+Corollary C01_node_replace_valid_closed : forall s doc from to content d',
+  check s doc = true ->
+  (forall x, In x content -> check s x = true) ->
+  node_replace s doc from to (SL content 0 0) = Ok d' ->
+  check s d' = true.
+Proof. intros s doc from to content d' Hd Hc. apply node_replace_valid_open; auto. Qed.
+Print Assumptions C01_node_replace_valid_closed.
+
+(* deleting a range (the empty slice) never needs a hypothesis on the slice *)
+Corollary C01_delete_valid : forall s doc from to d',
+  check s doc = true -> node_replace s doc from to (SL [] 0 0) = Ok d' -> check s d' = true.
+Proof. intros s doc from to d' Hd. apply node_replace_valid_open; auto. intros x []. Qed.
+Print Assumptions C01_delete_valid.
+
+(* ReplaceStep.apply: ok(doc') carries a valid doc' *)
+Theorem C01_replace_step_valid : forall s doc from to sl structure d',
+  check s doc = true ->
+  OpenOK s (sl_content sl) (sl_open_start sl) (sl_open_end sl) ->
+  apply s (SReplace from to sl structure) doc = ROk d' ->
+  check s d' = true.
+Proof.
+  intros s doc from to sl structure d' Hd Ho H. cbn [apply] in H. unfold lift in H.
+  destruct (if structure then content_between s doc from to else Ok false) as [cb|]; [|discriminate].
+  destruct cb; [discriminate|]. unfold from_replace in H.
+  destruct (node_replace s doc from to sl) as [d|e] eqn:E; [|destruct e; discriminate].
+  inversion H; subst. eapply node_replace_valid_open; eauto.
+Qed.
+Print Assumptions C01_replace_step_valid.
+
+(* the hypotheses are satisfiable by a slice open on both sides to different depths *)
+Local Open Scope string_scope.
+Definition ex_schema : schema :=
+  {| s_nodes := [(NT "doc" [] 1%nat false false (Some []) [] false false false false false None);
+                 (NT "paragraph" [] 3%nat false true None ["block"] false false false false false None);
+                 (NT "blockquote" [] 1%nat false false (Some []) ["block"] false false false false false None);
+                 (NT "text" [] 0%nat true false (Some []) [] false false false false false None)];
+     s_marks := [(MT "em" [] [0%nat] false [] None)];
+     s_states := [(CS true []); (CS false [(1%nat, 2%nat); (2%nat, 2%nat)]); (CS true [(1%nat, 2%nat); (2%nat, 2%nat)]);
+                  (CS true [(3%nat, 4%nat)]); (CS true [(3%nat, 4%nat)])];
+     s_top := 0%nat; s_text := 3%nat |}.
+Definition ex_p (t : list N) : node := Elem 1%nat [] [] [Text t []].
+(* doc(p("ab"), blockquote(p("cd"), p("ef"))) *)
+Definition ex_doc : node := Elem 0%nat [] [] [ex_p [97%N; 98%N]; Elem 2%nat [] [] [ex_p [99%N; 100%N]; ex_p [101%N; 102%N]]].
+(* <p("x"), blockquote(p("y"))>(1, 2) *)
+Definition ex_slice : slice := SL [ex_p [120%N]; Elem 2%nat [] [] [ex_p [121%N]]] 1 2.
+
+Local Close Scope string_scope.
+Example C01_example :
+  check ex_schema ex_doc = true /\
+  OpenOK ex_schema (sl_content ex_slice) (sl_open_start ex_slice) (sl_open_end ex_slice) /\
+  node_replace ex_schema ex_doc 2 7 ex_slice =
+    Ok (Elem 0%nat [] [] [ex_p [97%N; 120%N]; Elem 2%nat [] [] [ex_p [121%N; 100%N]; ex_p [101%N; 102%N]]]).
+Proof.
+  split; [vm_compute; reflexivity|]. split; [|vm_compute; reflexivity].
+  cbn [OpenOK ex_slice sl_content sl_open_start sl_open_end]. right.
+  exists 1%nat, [], [], [Text [120%N] []], [], 2%nat, [], [], [ex_p [121%N]].
+  split; [reflexivity|]. split; [split; vm_compute; reflexivity|]. split; [split; vm_compute; reflexivity|].
+  split; [|split].
+  - cbn [OpenL]. intros x [<-|[]]. vm_compute. reflexivity.
+  - cbn [OpenR]. exists [], 1%nat, [], [], [Text [121%N] []].
+    split; [reflexivity|]. split; [split; vm_compute; reflexivity|]. split; [|intros x []].
+    intros x [<-|[]]. vm_compute. reflexivity.
+  - intros x [].
+Qed.
